@@ -1,9 +1,11 @@
 /*
- * pdlsim_run <wall_s[:cpu_s]> <shim.so|-> <plan|-> <program> [args...]
+ * pdlsim_run <wall_s[:cpu_s[:ncpu]]> <shim.so|-> <plan|-> <program> [args...]
  * Launcher of tier P: pins the address-space layout (ADDR_NO_RANDOMIZE, so that with the
  * shim's heap/mmap shift the layout is a function of the plan), arms a wall-clock alarm
  * and a CPU-time limit that survive execve (oracle I4, deliberately outside the simulated world), then execs.
  */
+#define _GNU_SOURCE
+#include <sched.h>
 #include <stdio.h>
 #include <stdlib.h>
 #include <sys/personality.h>
@@ -19,6 +21,17 @@ int main(int argc, char **argv) {
     if (*colon == ':') {
         int cpu = atoi(colon + 1);
         if (cpu > 0) { struct rlimit rl = { (rlim_t)cpu, (rlim_t)cpu + 5 }; setrlimit(RLIMIT_CPU, &rl); }
+        /* number of CPUs the program may see (affinity mask = the first ncpu CPUs) */
+        const char *c2 = colon + 1;
+        while (*c2 && *c2 != ':') c2++;
+        if (*c2 == ':') {
+            int ncpu = atoi(c2 + 1);
+            if (ncpu > 0) {
+                cpu_set_t set; CPU_ZERO(&set);
+                for (int i = 0; i < ncpu && i < CPU_SETSIZE; i++) CPU_SET(i, &set);
+                sched_setaffinity(0, sizeof set, &set);
+            }
+        }
     }
     personality(ADDR_NO_RANDOMIZE);
     if (argv[2][0] != '-' || argv[2][1]) setenv("LD_PRELOAD", argv[2], 1);
